@@ -317,7 +317,8 @@ def _scan(ctx, u, f, name, algo, role):
     lim = ladd_({Lsym: 1}, {size: 1}, -1) if role == 'upper' else ladd_({Lsym: 1}, bl, -1)
     for rn in g.returns:
         fs = sv.facts(sv.conds_at(rn))
-        if any(lin_cmp(fa, '==', lim) for fa in fs):
+        # (a pointer scan leaves with cursor == end; a counted scan with !(i < size), i.e. size <= i, resp. i <= first)
+        if any(lin_cmp(fa, '==', lim) or lin_cmp(fa, '>=' if role == 'upper' else '<=', lim) for fa in fs):
             rk = keys.key(kids(rn.ast)[0])
             endk = rk
             ctx.check(rk == 'n:0', 'C11-bound', '%s: exhausted search answers false' % short, rn.ast,
